@@ -22,7 +22,7 @@ META = dict(
               "fixture files of 20 formats (numbers symbolic) and the generated files of the C02 writers, with a "
               "nondeterministic end of file at every line boundary and with one numeric field replaced by a malformed "
               "text (non-numeric, empty, absurdly large count); a cut inside a line (prefix of 1 character, 25 / 50 / 60 / 70 / 80 / 90 % and all but "
-              "the last character; 3 positions for fixtures longer than 30 lines) and one deleted / duplicated / swapped line, both at 10 line positions spread over the "
+              "the last character; 3 positions for fixtures longer than 30 lines) and one deleted / duplicated / swapped / blanked / commented-out ('# ') line or an inserted blank line, both at 10 line positions spread over the "
               "file; one integer field of the first 400 lines (counts first: integers on lines with '=' or alone on a line; 10 fields) replaced by n-2, n+2 or 10n+3; content that is not text (every byte >= 0x80; one "
               "undecodable byte at four offsets) as a real file; explicit and name-derived format selection; when a LoadError gives a line number it equals an "
               "independent count of the lines handed out minus the lines pushed back",
@@ -54,6 +54,8 @@ def _consistent(d):
                 continue
             if isinstance(v, np.ndarray) and n is not None and (v.ndim == 0 or len(v) != n):
                 return False, f"{dname}[{k!r}] has {v.shape} for {n} atoms"
+            if isinstance(v, (list, tuple)) and n is not None and len(v) != n:      # (the MOL2 reader returns a tuple of types)
+                return False, f"{dname}[{k!r}] has {len(v)} entries for {n} atoms"
     # integrals over one basis: square matrices / four-index arrays of one common size
     sizes = set()
     for k, v in (d.one_ints or {}).items():
@@ -279,9 +281,15 @@ def _h_parser_body(ctx, api, mods, fmt, fn, many, fault, lines, text, explicit, 
                 keep = ctx.choice(sorted({1} | {max(1, min(len(ln) - 1, int(len(ln) * f))) for f in fr}), label="prefix-length")
                 t2 = "".join(tl[:k]) + ln[:keep]
             else:
-                how = ctx.choice(["delete", "duplicate", "swap-with-next"], label="mutation")
+                how = ctx.choice(["delete", "duplicate", "swap-with-next", "blank", "comment", "insert-blank"], label="mutation")
                 if how == "delete":
                     tl = tl[:k] + tl[k + 1:]
+                elif how == "blank":
+                    tl = tl[:k] + ["\n"] + tl[k + 1:]
+                elif how == "comment":
+                    tl = tl[:k] + ["# " + tl[k]] + tl[k + 1:]
+                elif how == "insert-blank":
+                    tl = tl[:k] + ["\n"] + tl[k:]
                 elif how == "duplicate":
                     tl = tl[:k + 1] + tl[k:]
                 elif k + 1 < n:
